@@ -253,7 +253,8 @@ PROPS = {
         level_text="Each frontend is transport decoding composed with the store verdict: sasl_front, basic_front (split "
                    "at the first colon), ldap_front (bind name up to the first '@'), api_front; error_is_denial. Lean "
                    "theorems over the WebApi model. The real callback, a real saslauthd socket served by the agent, the "
-                   "real mux (basic-auth, /api/authenticate), ldapHandler.Bind and the built binary's authenticate "
+                   "real mux (basic-auth, /api/authenticate), ldapHandler.Bind, simple binds over a real LDAP listener served by "
+                   "runLDAPListener (BER over TCP) and the built binary's authenticate "
                    "command are compared with store.Dir.Authenticate on the same directory.",
         rule="Two (six) agents: upgrades off, and local upgrades + zxcvbn policy with every record under the non-default set "
              "(logins trigger internal upgrades that succeed for some users and are refused by the policy for others); "
@@ -263,8 +264,7 @@ PROPS = {
              "special in one transport (':' , non-BMP, JSON escapes, whitespace, NUL, invalid UTF-8).",
         trusted=["encoding/json, net/http (BasicAuth parsing), glauth/ldap BER decoding, urfave/cli are transports "
                  "trusted to be identity on their domains (tested, not proved)", T_CRYPTO],
-        partial=["LDAP is exercised at the handler (Bind callback), not over a BER connection",
-                 "listener combinations of the running binary are not enumerated"],
+        partial=["listener combinations (TLS, socket activation) of the running binary are not enumerated"],
     ),
     "C05": dict(
         modules=["Whawty.Props.C05", "Whawty.Props.Gen"],
